@@ -67,7 +67,7 @@ def main():
     ok = rec.get('demo_clean_rc') == 0 and rec.get('demo_patched_rc', 0) != 0 and (rec.get('suite_passed', 74) >= 74 and not rec.get('suite_failed', False))
     rec['confirmed'] = bool(ok)
     rec['detected'] = any(v['rc'] == 1 for v in rec.get('checks', {}).values())
-    json.dump({'property': prop, 'breaks': meta.get('what_breaks'), 'needs_to_manifest': meta.get('needs_to_manifest'), 'files': meta.get('files'),
+    json.dump({'property': prop, 'breaks': meta.get('what_breaks') or meta.get('breaks'), 'needs_to_manifest': meta.get('needs_to_manifest'), 'files': meta.get('files'),
                'confirmed_by_me': rec}, open(os.path.join(dest, 'meta.json'), 'w'), indent=1)
     print('%s confirmed=%s detected=%s' % (sid, ok, rec['detected']))
     for p, v in rec.get('checks', {}).items():
